@@ -18,7 +18,7 @@ LEVEL = "exploration"
 RULE = (
     "Hypothesis draws one decay table with 1-12 lines (branching fractions 1e-12..1 with exact ties, values differing only "
     "beyond the 7th digit and zeros; 0-4 daughters; PHOTOS; word and numeric parameters) and every combination of print_model, "
-    "display_photos_keyword, ascending, normalize, scale in {None, values in (0,1], 1, 1.0, 0, 0.0, negative, >1}, mother given "
+    "display_photos_keyword, ascending, normalize, scale in {None, values in (0,1], 1, 1.0, 0, 0.0, negative, >1, nan, +-inf}, mother given "
     "by EvtGen or by PDG name. Oracle: stdout split into rows/fields; one row per line; daughters/model/params/PHOTOS as "
     "requested; order = sort by the stored value in the requested direction (file order among equal values for descending; "
     "any order of equal values for ascending); value within half a unit of the 7th significant digit of bf*factor (1, 1/sum, scale/max); sum = 1 under "
@@ -63,7 +63,7 @@ def c16_case(draw):
         "ascending": draw(st.booleans()),
         "normalize": draw(st.integers(0, 3)) == 0,
         "scale": draw(st.one_of(st.none(), st.none(), st.sampled_from((0.5, 1, 1.0, 0.001, 0.3333, 0.75, 1e-9)),
-                                st.sampled_from((0.5, 1.0, 0.25)), st.sampled_from((0, 0.0, -0.5, 1.5, 1.0000001, -0.0)))),
+                                st.sampled_from((0.5, 1.0, 0.25)), st.sampled_from((0, 0.0, -0.5, 1.5, 1.0000001, -0.0, "nan", "inf", "-inf", 2, -1)))),
     }
     # further option sets printed afterwards on the same parser instance (nothing may be remembered between calls)
     more = []
@@ -117,10 +117,12 @@ def check_print(f, text, p, o, rec, first=True):
     before = observed_tables(p, ID)
     kw = dict(print_model=o["print_model"], display_photos_keyword=o["display_photos_keyword"], ascending=o["ascending"],
               normalize=o["normalize"], scale=o["scale"])
+    if isinstance(kw["scale"], str):  # "nan" / "inf" / "-inf": kept as words so that cases stay strict JSON
+        kw["scale"] = float(kw["scale"])
     arg = mother
     if f["pdg_name"]:
         arg, kw["pdg_name"] = f["pdg_name"], True
-    scale = o["scale"]
+    scale = kw["scale"]
     must_refuse = scale is not None and (o["normalize"] or not (0.0 < scale <= 1.0))
     bfs = [ln["bf"] for ln in lines]
     classes = ["opt-ascending" if o["ascending"] else "opt-descending", "normalize" if o["normalize"] else ("scale" if scale is not None else "plain")]
